@@ -3,8 +3,9 @@ import os, re
 from common import *
 from props import c07
 G = os.path.dirname(os.path.dirname(os.path.abspath(__file__)))
-LEVEL_TEXT = 'bounded model checking: the real CannotDerive::constrain equals an independent specification of the documented derive rules (one step, arbitrary pre-state, every TypeKind variant, five traits), plus the lattice laws of CanDerive'
-OUTSIDE = ['what rustc accepts for the emitted derives', 'behaviour of the hand-written Default/Debug/PartialEq bodies (token templates; need execution)', 'derives_of_item and the CanDerive* option gates of context.rs (read the real Item / options)',
+LEVEL_TEXT = ('bounded model checking: the real CannotDerive::constrain equals an independent specification of the documented derive rules (one step, arbitrary pre-state, every TypeKind variant, five traits), plus the lattice laws of CanDerive, the option gates; '
+              'and the hand-written impl bodies: the real codegen/impl_debug.rs and codegen/impl_partialeq.rs against token stubs - the Debug body is a well-formed write! whose arguments are exactly the printable members and bit-field getters, the PartialEq body compares every base, member and named bit-field')
+OUTSIDE = ['what rustc accepts for the emitted derives', 'executing the hand-written Default/Debug/PartialEq bodies on objects filled by C (the bodies are checked as token structures: which members they print / compare, not by running them)', 'the Default body (ptr::write_bytes template) and the needs_*_impl decisions of CompInfo::codegen',
            'equality of least fixed points follows from equality of monotone one-step functions (paper argument)']
 EXPLANATION = ('For each of the five DeriveTraits and each TypeKind variant the solver picks flags, options, layouts, children facts and the previous fact of X; constrain(X) must produce max(previous, spec) where spec is '
                'written from the documentation: floats not Hash; pointers/enums/references/type params not Default; arrays (element must be Yes, length 0 only Debug/Default, >32 Manually for Default); vectors not PartialOrd; '
@@ -82,4 +83,51 @@ mod proofs {
         kk.stubs = ['BindgenContext: option flags + the analysis result sets as one-element stand-ins (contains/get answer a symbolic value)', 'DerivableTraits: u16 newtype with the constants of the bitflags type', 'Item: id + three annotation flags; CanDerive* for Item forwards to the id (as ir/item.rs does)']
         kk.bounds = ['no loops; every combination']
         return kk
-    return [kernel_or_error('derive_spec', k), kernel_or_error('can_derive_laws', laws), kernel_or_error('gates', gates)]
+    def impls():
+        dbg = strip_uses(strip_inner(rd('codegen/impl_debug.rs')))
+        peq = strip_uses(strip_inner(rd('codegen/impl_partialeq.rs')))
+        # -- impl_debug.rs: the recursive `impl ImplDebug for Item` is instantiated once per alias hop (no recursion left)
+        blk = extract(dbg, r"^impl<'a> ImplDebug<'a> for Item \{", what='impl ImplDebug for Item')
+        if blk.count('ctx.resolve_item(') != 1 or '.impl_debug(ctx, name)' not in blk:
+            raise SliceError('impl ImplDebug for Item: expected exactly one recursive call through ctx.resolve_item(..).impl_debug(ctx, name)')
+        fdb = extract(dbg, r"^impl ImplDebug<'_> for FieldData \{", what='impl ImplDebug for FieldData')
+        if fdb.count('ctx.resolve_item(') != 1:
+            raise SliceError('impl ImplDebug for FieldData: expected exactly one ctx.resolve_item(..)')
+        if dbg.count('fields: &[Field],') != 1:
+            raise SliceError('gen_debug_impl: parameter `fields: &[Field]` not found exactly once')
+        dbg = dbg.replace('fields: &[Field],', 'fields: &List<Field, NF>,')   # listed rewrite: std slice iteration unrolls every adaptor loop to the global bound
+        blk = extract(dbg, r"^impl<'a> ImplDebug<'a> for Item \{", what='impl ImplDebug for Item')
+        fdb = extract(dbg, r"^impl ImplDebug<'_> for FieldData \{", what='impl ImplDebug for FieldData')
+        rest = dbg.replace(blk, '').replace(fdb, fdb.replace('ctx.resolve_item(', 'ctx.resolve_l0('))
+        if 'resolve_item' in rest.replace('resolve_item0', ''):
+            raise SliceError('impl_debug.rs: unexpected further use of resolve_item')
+        copies = [blk.replace('for Item {', 'for ItemL%d {' % k).replace('ctx.resolve_item(', 'ctx.resolve_l%d(' % (k + 1)) for k in range(3)]
+        dbg_text = rest + '\n' + '\n'.join(copies)
+        # -- impl_partialeq.rs: same for the recursive free fn gen_field
+        gf = extract(peq, r'^fn gen_field\(', what='fn gen_field')
+        if gf.count('ctx.resolve_item(') != 1 or gf.count('gen_field(ctx,') != 1 or 'ty_item: &Item,' not in gf:
+            raise SliceError('gen_field: expected one recursive call and one ctx.resolve_item(..)')
+        gp = extract(peq, r'^pub\(crate\) fn gen_partialeq_impl\(', what='fn gen_partialeq_impl')
+        gp2 = gp.replace('ctx.resolve_item(', 'ctx.resolve_l0(').replace('gen_field(', 'gen_field_l0(')
+        gcopies = [gf.replace('fn gen_field(', 'fn gen_field_l%d(' % k).replace('ty_item: &Item,', 'ty_item: &ItemL%d,' % k)
+                     .replace('ctx.resolve_item(', 'ctx.resolve_l%d(' % (k + 1)).replace('gen_field(ctx,', 'gen_field_l%d(ctx,' % (k + 1)) for k in range(3)]
+        peq_text = peq.replace(gf, '').replace(gp, gp2) + '\n' + '\n'.join(gcopies)
+        h = open(os.path.join(G, 'harness', 'c08_impls.rs')).read().replace('/*IMPL_DEBUG*/', dbg_text).replace('/*IMPL_PARTIALEQ*/', peq_text)
+        kk = Kernel(name='manual_impls')
+        kk.files = {'src/lib.rs': h}
+        kk.harnesses = [H('manual_debug_body_compiles_and_prints_every_printable_member', timeout=900, weight=2,
+                          desc='gen_debug_impl + all ImplDebug impls: the write! call has exactly as many arguments as the format string has placeholders, the format string is well formed, every argument is `self.<named data member>` or `self.<getter of a named bit-field>()` of this struct in declaration order, a member is printed iff its type is allowlisted and can be Debug-printed (not a type parameter, array of one, opaque instantiation, un-derivable function pointer)',
+                          sample='2 fields (data member through <= 2 alias hops of any kind, or a unit of <= 2 bit-fields with plain or mangled getters), any allowlisting, opaque / union / struct'),
+                        H('manual_partialeq_body_compares_every_member_and_bitfield', timeout=900, weight=2,
+                          desc='gen_partialeq_impl + gen_field: one conjunct per base with storage, per data member and per named bit-field (through its getter), the same member on both sides, in order; opaque -> the blob, union -> bindgen_union_field',
+                          sample='<= 1 base, <= 2 fields, kinds as above')]
+        kk.encoded = [enc('codegen/impl_debug.rs', 'whole file', rd('codegen/impl_debug.rs')), enc('codegen/impl_partialeq.rs', 'whole file', rd('codegen/impl_partialeq.rs'))]
+        kk.stubs = ['String: 64-byte buffer; format!(lit) / write!(s, lit) interpret the literal as std does ({{ }} escapes; an inline `{ident}` argument becomes one brace-free byte)',
+                    'quote!: one arm per template shape (13), recording member expressions, comparisons and the two function shells',
+                    'rewrite: gen_debug_impl takes `fields: &List<Field, NF>` instead of `&[Field]` (same `.iter()`, an iterator with a concrete counter)', 'rewrite: `impl ImplDebug for Item` and `fn gen_field` are instantiated once per alias hop (Item -> ItemL0..2, ctx.resolve_item -> ctx.resolve_l<k>): textual rename, removes recursion',
+                    'BindgenContext / Item / Type / TypeKind (same variant names, light payloads) / Field / Bitfield / Base: the accessors the two files use']
+        kk.assumptions = ['interpolated names are brace-free (C identifiers, numbers)', 'at most two alias-like hops between a member and its final type',
+                          'gen_partialeq_impl is only reached when derive(PartialEq) is `Manually`: no member is a vector, a union is not a Rust union (both from the derive rules, checked by kernel derive_spec)']
+        kk.bounds = ['2 fields, <= 2 bit-fields per unit, <= 1 base, <= 2 alias hops, format string <= 64 bytes; kinds, flags, names mangled or not: symbolic']
+        return kk
+    return [kernel_or_error('manual_impls', impls), kernel_or_error('derive_spec', k), kernel_or_error('can_derive_laws', laws), kernel_or_error('gates', gates)]
